@@ -17,7 +17,7 @@ pub fn meta() -> PropertyMeta {
     PropertyMeta {
         id: "C17",
         level: "exploration",
-        rule: "underlying types u8, i32, i64, f32, f64, Frequency<f32>, Time<f32>; tokens: the five keywords in short/long form x case and near misses (one character shorter/longer, MINI, DEFA, UPP, DOW), decimal literals on / just inside / just outside the bounds, INF/NINF/NAN for floats, suffixed values, non-numeric elements; configurations (min <= max incl. min = max, bounds at the type extremes and +-inf, default inside or absent, no bounds at all) through both builder paths. Oracle: executable specification of the property text. Non-trivial: value within one step of a bound, keyword near miss, NaN/inf, or min = max.",
+        rule: "underlying types u8, i32, i64, f32, f64, Frequency<f32>, Time<f32>; tokens: the five keywords in short/long form x case and near misses (one character shorter/longer, MINI, DEFA, UPP, DOW), decimal literals on / just inside / just outside the bounds, INF/NINF/NAN for floats, suffixed values, non-numeric elements; configurations (min <= max incl. min = max, bounds at the type extremes and +-inf, default inside or absent, no bounds at all) through both builder paths. Oracle: executable specification of the property text. Added: every order of the builder's setters and the NumericBuilder::new constructor; EVERY letter string up to 4 (5) characters as a character datum for five underlying types. Non-trivial: value within one step of a bound, keyword near miss, NaN/inf, or min = max.",
         assumptions: &[
             "min <= max and default (if any) inside [min,max] are preconditions of the configuration",
             "the underlying conversion (T::try_from) is judged by C07/C08/C18; here the value path is compared with it",
